@@ -53,8 +53,43 @@ def budget_for(n, k):
     return 60 * (n + 1) * k * (2 * k + 2) + 200
 
 
+def warm_graph(k, mode):
+    """'full': the complete graph; 'sparse': arc (v, j) present iff v + j is even (out-degree 2 everywhere)."""
+    N = 4 ** k
+    return [[((v * 4 + j) % N if (mode == "full" or (v + j) % 2 == 0) else -1) for j in range(4)] for v in range(N)]
+
+
+def warm_calls(k, mode):
+    """(strand, rows, start, order) of the warm-up repairs: a short clean walk of the warm-up graph from every vertex, then one
+    call at the next order (shared buffers sized by an earlier, larger graph)."""
+    out = []
+    rows = warm_graph(k, mode)
+    for v0 in range(4 ** k):
+        v, strand = v0, ""
+        for i in range(2 * k + 2):
+            live = [j for j in range(4) if rows[v][j] >= 0]
+            j = live[(i + v0) % len(live)]
+            strand += "ACGT"[j]
+            v = rows[v][j]
+        out.append((strand, rows, v0, k))
+    out.append(("ACGTTGCATCGAGT"[:3 * (k + 1) + 2], warm_graph(k + 1, "full"), 0, k + 1))
+    return out
+
+
+def warm_mode(s, start):
+    n = len(strs.codes_of(s))
+    return "sparse" if (n + (start if isinstance(start, int) else 0)) % 2 == 0 else "full"
+
+
 def run_repair(e, L, rows, s, start, k, vt_check=None, has_indel=True, heap_size=1e9, budget=None):
     """returns (kind, value): 'ok' (value = (candidates, stats)), 'budget', 'exc' (value = exception)."""
+    # history: earlier repairs on OTHER graphs (same order: from every start vertex; next order: one call) must not influence this call
+    mode = warm_mode(s, start)
+    for strand, wrows, wstart, kk in warm_calls(k, mode):
+        try:
+            L.repair_dna(strs.K(strand), symnp.array(wrows), wstart, kk, has_indel=True)
+        except Exception:
+            pass
     acc = symnp.array(rows)
     acc.budget = symnp.AccessBudget(budget)
     try:
@@ -73,6 +108,7 @@ def run_repair(e, L, rows, s, start, k, vt_check=None, has_indel=True, heap_size
 def repair_cex(m, name, codes, start, k, chk_codes=None, has_indel=True, heap_size=1e9, **kw):
     c = {"kind": "repair", "graph": name, "strand": oracles.model_string(m, codes), "start": start if isinstance(start, int) else m.eval(start, model_completion=True).as_long(),
          "k": k, "vt_check": (oracles.model_string(m, chk_codes) if chk_codes is not None else None), "has_indel": has_indel, "heap_size": heap_size}
+    c["warmup"] = warm_mode(c["strand"], c["start"])
     c.update(kw)
     return c
 
